@@ -186,6 +186,8 @@ type Universe struct {
 	ufuncOrder []string
 	axioms     []string // global axioms (asserted in every VC that uses them; kept simple: always)
 	axiomSeen  map[string]bool
+	defs       []string          // define-fun lines (after datatypes)
+	okFuncs    map[string]string // struct sort -> name of its "all refs allocated" predicate ("" if it holds no refs)
 }
 
 func newUniverse() *Universe {
@@ -436,6 +438,10 @@ func (u *Universe) preamble() string {
 			fmt.Fprintf(&b, "(assert (distinct %s))\n", strings.Join(names, " "))
 		}
 	}
+	for _, d := range u.defs {
+		b.WriteString(d)
+		b.WriteString("\n")
+	}
 	for _, n := range u.ufuncOrder {
 		b.WriteString(u.ufuncs[n])
 		b.WriteString("\n")
@@ -505,4 +511,57 @@ func (u *Universe) constArray(keySort, valSort string, zero Term) Term {
 	u.ufunc(n, nil, as)
 	u.axiom(fmt.Sprintf("(forall ((i %s)) (! (= (select %s i) %s) :pattern ((select %s i))))", keySort, n, zero.S, n))
 	return Term{n, as}
+}
+
+// okTerm: every reference stored (transitively, through struct values) in v is allocated (<= wm).
+// Returns "true" when values of type T hold no references.
+func (u *Universe) okTerm(T types.Type, v Term, wm Term) Term {
+	T = types.Unalias(T)
+	if isTimeTime(T) {
+		return tTrue
+	}
+	switch tt := T.Underlying().(type) {
+	case *types.Pointer, *types.Map, *types.Chan:
+		return app("Bool", "<=", v, wm)
+	case *types.Slice:
+		return app("Bool", "<=", app("Int", "sl_arr", v), wm)
+	case *types.Interface:
+		return app("Bool", "<=", app("Int", "if_val", v), wm)
+	case *types.Struct:
+		fn := u.okFunc(T)
+		if fn == "" {
+			return tTrue
+		}
+		return app("Bool", fn, v, wm)
+	case *types.Array:
+		_ = tt
+		return tTrue
+	}
+	return tTrue
+}
+
+func (u *Universe) okFunc(T types.Type) string {
+	si := u.structOf(T)
+	if u.okFuncs == nil {
+		u.okFuncs = map[string]string{}
+	}
+	if fn, ok := u.okFuncs[si.sortName]; ok {
+		return fn
+	}
+	u.okFuncs[si.sortName] = "" // cycle guard (struct values cannot be cyclic)
+	var parts []Term
+	x, wm := Term{"x", si.sortName}, Term{"wm", "Int"}
+	for i, ft := range si.ftypes {
+		p := u.okTerm(ft, app(si.fsorts[i], si.fields[i], x), wm)
+		if p.S != "true" {
+			parts = append(parts, p)
+		}
+	}
+	if len(parts) == 0 {
+		return ""
+	}
+	fn := "ok_" + si.sortName
+	u.defs = append(u.defs, fmt.Sprintf("(define-fun %s ((x %s) (wm Int)) Bool %s)", fn, si.sortName, and(parts...).S))
+	u.okFuncs[si.sortName] = fn
+	return fn
 }
